@@ -1,10 +1,14 @@
 package gofakes3
 
 import (
+	"bytes"
 	"io"
 	"io/ioutil"
 	"strconv"
 )
+
+// readAllMaxPrealloc is the largest buffer ReadAll allocates up front.
+const readAllMaxPrealloc = 64 << 20
 
 func parseClampedInt(in string, defaultValue, min, max int64) (int64, error) {
 	var v int64
@@ -35,17 +39,37 @@ func parseClampedInt(in string, defaultValue, min, max int64) (int64, error) {
 // It also reports S3-specific errors in certain conditions, like
 // ErrIncompleteBody.
 func ReadAll(r io.Reader, size int64) (b []byte, err error) {
-	var n int
-	b = make([]byte, size)
-	n, err = io.ReadFull(r, b)
-	if err == io.ErrUnexpectedEOF {
+	if size < 0 {
 		return nil, ErrIncompleteBody
-	} else if err != nil {
-		return nil, err
 	}
 
-	if n != int(size) {
-		return nil, ErrIncompleteBody
+	// The size comes from a request header. Preallocating it unconditionally
+	// lets a client that sends a huge Content-Length (or
+	// X-Amz-Decoded-Content-Length) and no data make us panic or run out of
+	// memory, so beyond a sane limit the buffer only grows as data arrives:
+	if size > readAllMaxPrealloc {
+		var buf bytes.Buffer
+		_, err = io.CopyN(&buf, r, size)
+		if err == io.EOF || err == io.ErrUnexpectedEOF {
+			return nil, ErrIncompleteBody
+		} else if err != nil {
+			return nil, err
+		}
+		b = buf.Bytes()
+
+	} else {
+		var n int
+		b = make([]byte, size)
+		n, err = io.ReadFull(r, b)
+		if err == io.ErrUnexpectedEOF {
+			return nil, ErrIncompleteBody
+		} else if err != nil {
+			return nil, err
+		}
+
+		if n != int(size) {
+			return nil, ErrIncompleteBody
+		}
 	}
 
 	if extra, err := ioutil.ReadAll(r); err != nil {
